@@ -291,6 +291,20 @@ def run(ctx):
     if not ok:
         finding('C07.e', 'R-PROV', sv_m, '; '.join(norm(n) for n in stores) or 'store', 'the in-memory cassette stores the live object instead of its encoded text: '
                 'later mutation of the saved objects changes what is fetched')
+    # ---------------- C07.c (whole decode) what was encoded as one jsonpickle document is decoded as one: references between its
+    # parts (py/id) are numbered over the whole document, a part restored on its own resolves them to other objects
+    for cn in ('InMemoryTapeCassette', 'FileBasedTapeCassette'):
+        c_ = repo.find_class(cn)
+        partial = [(m, n) for m in c_.methods.values() for n in ast.walk(m.node) if isinstance(n, ast.Call) and (
+            (norm(n.func).split('.')[-1] in ('loads', 'load') and 'json' in norm(n.func) and 'jsonpickle' not in norm(n.func)) or
+            norm(n.func).split('.')[-1] in ('Unpickler', 'restore'))]
+        cc.instance('%s: stored recordings are decoded as a whole (no raw JSON / partial restore)' % cn, cn, not partial)
+        cc.evaluations += 1
+        for m, n in partial[:1]:
+            res.add(Finding('C07', 'C07.c', 'R-PROV', m.file, m.qualname, n.lineno, norm(n)[:100],
+                            '%s reads the stored encoding with `%s` instead of decoding the whole recording: typed values appear as raw py/ dicts '
+                            'and shared sub-objects (py/id references) resolve to the wrong object, so what is fetched differs from what was saved' % (
+                                m.qualname, norm(n.func))))
     # ---------------- C07.a (files) a save replaces the file: it is opened truncating
     from . import common as _cmw
     filc = repo.find_class('FileBasedTapeCassette')
